@@ -398,7 +398,7 @@ impl Default for C03 {
     }
 }
 
-fn with_threshold(ix: &Ix, thr: u64) -> Ix {
+pub fn with_threshold(ix: &Ix, thr: u64) -> Ix {
     let mut i = ix.clone();
     i.data[16..24].copy_from_slice(&thr.to_le_bytes());
     i
